@@ -747,6 +747,27 @@ inline fp_type fast_atof (const char *p)
 	else if (*p == '+')
 		++p;
 
+#if !defined FIX8_USE_SINGLE_PRECISION
+	// Plain decimals of up to 15 significant digits (any FIX price or quantity): the digits as an
+	// integer and the power of ten are both exact in a double, so one division gives the correctly
+	// rounded result. Anything else (more digits, an exponent) is left to the general code below.
+	{
+		static const double exact_pow10[] { 1e0, 1e1, 1e2, 1e3, 1e4, 1e5, 1e6, 1e7, 1e8, 1e9, 1e10, 1e11,
+			1e12, 1e13, 1e14, 1e15, 1e16, 1e17, 1e18, 1e19, 1e20, 1e21, 1e22 };
+		const unsigned long long limit(100000000000000ULL);	// 10^14: one more digit still fits 15
+		const char *q(p);
+		unsigned long long mant(0);
+		unsigned fdigits(0);
+		while (isdigit(*q) && mant < limit)
+			mant = mant * 10 + (*q++ - '0');
+		if (*q == '.')
+			for (++q; isdigit(*q) && mant < limit && fdigits < 22; ++fdigits)
+				mant = mant * 10 + (*q++ - '0');
+		if (!isdigit(*q) && *q != '.' && toupper(*q) != 'E')
+			return sign * (static_cast<double>(mant) / exact_pow10[fdigits]);
+	}
+#endif
+
 	// Get digits before decimal point or exponent, if any.
 	while (isdigit(*p))
 	{
